@@ -79,7 +79,7 @@ def realize(a, resolvers=None, extra=None, subclassed=False):
                                                      for f in t.get("fields", [])]))
         elif k in ("object", "interface"):
             def mk(t=t):
-                return [Field(f["name"], ref(f["type"]), args(f.get("args")), deprecation_reason=(ASTRAL if f.get("dep") == "ASTRAL" else (f.get("dep") or None)),
+                return [Field(f["name"], ref(f["type"]), args(f.get("args")), deprecation_reason=(ASTRAL if f.get("dep") == "ASTRAL" else "" if f.get("dep") == "EMPTY" else (f.get("dep") or None)),
                               resolver=resolvers.get((t["name"], f["name"]))) for f in t.get("fields", [])]
             if k == "object":
                 reg[n] = ObjectType(n, mk, interfaces=(lambda t=t: [reg[i] for i in t.get("ifaces", [])]))
